@@ -77,26 +77,19 @@ extern size_t (*const *const vg_pm1_ucb)(void *, size_t, void *);   /* == &vg_de
 #define VG_BSR        BSR_OK(&vg_dec.bit_stream_reader)
 #define VG_PIN(d)     ((d) == &vg_dec && VG_BSR)
 #define VG_RING_OK    (vg_dec.ringbuf_pos < RING_BUFFER_SIZE)
-/* history list invariant of pma_common.c.spec, at the pinned list */
-#ifdef VG_EXPERIMENT_NO_HIST
-#define VG_PM1_HIST_OK 1
-#else
-#define VG_PM1_HIST_OK VG_HIST_OK(vg_dec.history_list)
-#endif
+/* History list: the invariant memory safety needs is "every link is a valid index into history[256]";
+   it holds by type (uint8_t links) and is re-checked as bounds obligations wherever the list is
+   touched, so it contributes no clause (see pma_common.c.spec for why the inverse-permutation
+   property VG_HIST_OK cannot be carried as an invariant). */
 /* Representation invariant of LHAPM1Decoder (established by lha_pm1_init, kept by every function) */
-#define VG_DEC_OK     (VG_BSR && VG_RING_OK && VG_TREEP_OK_OR_NULL(vg_dec.byte_decode_tree) && VG_PM1_HIST_OK)
+#define VG_DEC_OK     (VG_BSR && VG_RING_OK && VG_TREEP_OK_OR_NULL(vg_dec.byte_decode_tree))
 /* same, once the 5-bit stream header has been read */
-#define VG_DEC_RUN    (VG_BSR && VG_RING_OK && VG_TREEP_OK(vg_dec.byte_decode_tree) && VG_PM1_HIST_OK)
+#define VG_DEC_RUN    (VG_BSR && VG_RING_OK && VG_TREEP_OK(vg_dec.byte_decode_tree))
 
 #define VG_BITS_FRAME vg_dec.bit_stream_reader.bit_buffer, vg_dec.bit_stream_reader.bits
 
 /* output window: buf points into the arena vg_out at offset <= OFFMAX */
 #define VG_OUT_AT(b, OFFMAX) (__CPROVER_same_object((b), vg_out) && VG_OFF(b) <= (OFFMAX))
-
-/* pre/post of read_byte_decode_index (legacy route: assumed/asserted by the harness entry and the
-   same text is the function's woven contract used by its callers) */
-#define VG_RBDI_PRE(d)   (VG_PIN(d) && VG_TREEP_OK(vg_dec.byte_decode_tree))
-#define VG_RBDI_POST(rv) (VG_BSR && (rv) >= -1 && (rv) < (int) VG_NBYTE_RANGES)
 
 /* parameters of pma_common.c.spec: which VariableLengthTable the group's decode_variable_length
    calls use: VG_VLT == 1 copy_ranges (read_copy_command), VG_VLT == 2 byte_ranges (read_byte) */
@@ -116,6 +109,7 @@ extern size_t (*const *const vg_pm1_ucb)(void *, size_t, void *);   /* == &vg_de
 #include "lib/pm1_decoder.c"
 
 HistoryLinkedList *const vg_hist = &vg_dec.history_list;
+uint8_t vg_hist_k;   /* parameter of pma_common.c.spec (only used by its -DVG_HIST_INVERSE lemma groups, run in the pm2 plan) */
 const VariableLengthTable *const vg_vlt = VG_VLT_TABLE;
 void *const vg_pm1_self = &vg_dec;
 size_t (*const *const vg_pm1_ucb)(void *, size_t, void *) = &vg_dec.callback;
@@ -128,6 +122,18 @@ static void vg_havoc(void)
 
 /* bit reader template as instantiated by pm1 (callback == read_callback_wrapper) */
 void h_peek_bits(void) { BitStreamReader *r; unsigned n; vg_havoc(); peek_bits(r, n); VG_CANARY("peek_bits"); }
+/* Lemma (C13, "implicitly endless"): because read_callback_wrapper never reports end of input, the bit
+   reader of this decoder cannot fail for requests of up to 25 bits (pm1 asks for at most 13); so a
+   -pm1- stream never ends by itself and the bound on decoding is lha_decoder_read's length clamp. */
+void h_peek_bits_total(void)
+{
+	BitStreamReader *r; unsigned n; int rv;
+	vg_havoc();
+	__CPROVER_assume(n <= 25);
+	rv = peek_bits(r, n);
+	__CPROVER_assert(rv >= 0, "pm1: peek_bits cannot fail for n <= 25 (zero fill at end of input)");
+	VG_CANARY("peek_bits_total");
+}
 void h_read_bits(void) { BitStreamReader *r; unsigned n; vg_havoc(); read_bits(r, n); VG_CANARY("read_bits"); }
 void h_read_bit(void) { BitStreamReader *r; vg_havoc(); read_bit(r); VG_CANARY("read_bit"); }
 
@@ -160,25 +166,11 @@ void h_read_byte_block_count(void) { BitStreamReader *r; vg_havoc(); read_byte_b
 void h_read_byte_block(void) { LHAPM1Decoder *d; uint8_t *b; vg_havoc(); read_byte_block(d, b); VG_CANARY("read_byte_block"); }
 void h_read(void) { void *d; uint8_t *b; vg_havoc(); lha_pm1_read(d, b); VG_CANARY("lha_pm1_read"); }
 
-/* read_byte_decode_index walks the tree row with a POINTER loop variable: legacy route, i.e. the
-   function contract is assumed/asserted here (same macros as in the woven contract); the frame is
-   visible in the loop contract (only the bit reader's buffer/count and locals are assigned). */
-void *(*const vg_malloc_ref)(size_t) = malloc;   /* legacy contract replacement (is_fresh) needs the symbol */
-void h_read_byte_decode_index(void)
-{
-	LHAPM1Decoder *d;
-	int rv;
-	const uint8_t *tree0;
-	unsigned pos0, rpos0;
-	vg_havoc();
-	__CPROVER_assume(VG_RBDI_PRE(d));
-	tree0 = vg_dec.byte_decode_tree; pos0 = vg_dec.output_stream_pos; rpos0 = vg_dec.ringbuf_pos;
-	rv = read_byte_decode_index(d);
-	__CPROVER_assert(VG_RBDI_POST(rv), "read_byte_decode_index postcondition");
-	__CPROVER_assert(vg_dec.byte_decode_tree == tree0 && vg_dec.output_stream_pos == pos0 && vg_dec.ringbuf_pos == rpos0 &&
-	                 vg_dec.callback == vg_user_cb, "read_byte_decode_index frame: decoder state other than the bit buffer unchanged");
-	VG_CANARY("read_byte_decode_index");
-}
+/* read_byte_decode_index walks its tree row with a pointer loop variable; DFCC copes with this one
+   (3 s), so it is an ordinary enforce group.  Its loop-contract obligations come out unnamed
+   (read_byte_decode_index_wrapped_for_contract_checking.N: invariant base, 4 invariant-step clauses,
+   decreases), which is what the plan's `expect` looks for. */
+void h_read_byte_decode_index(void) { LHAPM1Decoder *d; vg_havoc(); read_byte_decode_index(d); VG_CANARY("read_byte_decode_index"); }
 
 /* The constant tables, exhaustively (complete: they are constants of the code). */
 void h_trees(void)
